@@ -172,3 +172,204 @@ Proof.
   - rewrite E. cbn [d_callee_regs d_set_callee_regs]. now apply callee_del_reg_nonempty.
   - cbn [d_callee_regs d_set_callee_regs]. now apply callee_del_reg_nonempty.
 Qed.
+
+(** ** Frame lemmas: what [dealer_remove_session] does to the per-callee table *)
+From Nexus Require Import Router.DealerRemove.
+
+Lemma remove_callee_reg_fold_cr : forall sid regs d mp,
+    d_callee_regs (fst (fold_left (remove_callee_reg sid) regs (d, mp))) = d_callee_regs d.
+Proof.
+  intros sid regs; induction regs as [|id regs IH]; intros d mp; cbn [fold_left]; [reflexivity|].
+  destruct (remove_callee_reg sid (d, mp) id) as [d1 mp1] eqn:E. rewrite IH.
+  unfold remove_callee_reg in E. pose proof (del_callee_reg_cr d sid id) as C.
+  destruct (del_callee_reg d sid id) as [d2 [deleted|]]; inversion E; subst; cbn [fst] in C; auto.
+Qed.
+
+Lemma cancel_served_cr : forall lk sid acc e,
+    d_callee_regs (fst (cancel_served lk sid acc e)) = d_callee_regs (fst acc).
+Proof.
+  intros lk sid [d o] [ikey i0]. unfold cancel_served. cbn [fst].
+  destruct (cget (d_invs d) ikey) as [inv|]; [|reflexivity].
+  destruct (negb (inv_callee inv =? sid)); [reflexivity|].
+  destruct (cget (d_calls d) (inv_call inv)) as [caller|]; [|reflexivity].
+  match goal with |- context [sync_cancel ?a ?b ?c ?d0 ?e ?f ?g] =>
+    pose proof (sync_cancel_regs_same a b c d0 e f g) as S; destruct (sync_cancel a b c d0 e f g) as [d3 o3] end.
+  cbn [fst] in *. destruct S as (_ & _ & _ & _ & E & _). rewrite E.
+  cbn [d_callee_regs d_set_invs]. apply ct_callee_regs.
+Qed.
+
+Lemma drop_own_call_cr : forall sid d e, d_callee_regs (drop_own_call sid d e) = d_callee_regs d.
+Proof.
+  intros sid d [cid caller]. unfold drop_own_call.
+  destruct (negb (caller =? sid)); [reflexivity|]. cbn [d_bycall d_set_calls d_invs].
+  destruct (cget (d_bycall d) cid) as [ikey|]; [|reflexivity].
+  destruct (cget (d_invs d) ikey) as [inv|]; cbn [d_callee_regs d_set_invs d_set_bycall];
+    rewrite ?ct_callee_regs; reflexivity.
+Qed.
+
+Lemma drs_callee_regs : forall lk d sid,
+    d_callee_regs (fst (fst (dealer_remove_session lk d sid))) = ndel (d_callee_regs d) sid.
+Proof.
+  intros lk d sid. unfold dealer_remove_session.
+  pose proof (remove_callee_reg_fold_cr sid (match nget (d_callee_regs d) sid with Some l => l | None => [] end) d []) as E1.
+  destruct (fold_left (remove_callee_reg sid) _ (d, [])) as [d1 mp]. cbn [fst] in E1.
+  assert (E2 : forall l acc, d_callee_regs (fst (fold_left (cancel_served lk sid) l acc)) = d_callee_regs (fst acc)).
+  { induction l as [|e l IH]; intros acc; cbn [fold_left]; [reflexivity|]. rewrite IH. apply cancel_served_cr. }
+  specialize (E2 (d_invs (d_set_callee_regs d1 (ndel (d_callee_regs d1) sid)))
+                 (d_set_callee_regs d1 (ndel (d_callee_regs d1) sid), [])).
+  destruct (fold_left (cancel_served lk sid) _ _) as [d3 o]. cbn [fst] in *.
+  assert (E3 : forall l d0, d_callee_regs (fold_left (drop_own_call sid) l d0) = d_callee_regs d0).
+  { induction l as [|e l IH]; intros d0; cbn [fold_left]; [reflexivity|]. rewrite IH. apply drop_own_call_cr. }
+  rewrite E3, E2. cbn [d_callee_regs d_set_callee_regs]. now rewrite E1.
+Qed.
+
+Lemma cr_nonempty_ndel : forall l sid, cr_nonempty l -> cr_nonempty (ndel l sid).
+Proof. intros l sid H x ids. rewrite ngd. destruct (N.eqb x sid); [discriminate|apply H]. Qed.
+
+(** ** Building [realm_wf] for a realm that differs in one component *)
+
+Lemma wf_set_broker : forall r b pg,
+    realm_wf r -> broker_wf b -> (forall x, nget (b_sess b) x <> None -> client r x) ->
+    realm_wf (r_set_broker r b pg).
+Proof.
+  intros r b pg [A B C D E F G H I] Wb Hs. constructor; cbn [r_set_broker r_meta r_clients r_broker r_dealer r_testaments]; auto.
+Qed.
+
+Lemma wf_set_dealer : forall r d,
+    realm_wf r -> dealer_wf (lookup r) d -> cr_nonempty (d_callee_regs d) -> realm_wf (r_set_dealer r d).
+Proof.
+  intros r d [A B C D E F G H I] Wd Hc. constructor; cbn [r_set_dealer r_meta r_clients r_broker r_dealer r_testaments]; auto.
+Qed.
+
+Lemma ids_below_mono : forall k k' r, ids_below k r -> k <= k' -> ids_below k' r.
+Proof. intros k k' r (A & B & C) H. repeat split; try lia. intros x s E. specialize (C x s E). lia. Qed.
+
+(** ** Publications of the meta session and of clients *)
+Lemma publish_realm_wf : forall r pub req opts topic args kw,
+    realm_wf r ->
+    let '(b, pg, o) := publish (r_cfg r) (lookup r) (r_now r) (r_broker r) (r_pubgen r) pub req opts topic args kw in
+    realm_wf (r_set_broker r b pg) /\ b_idgen b = b_idgen (r_broker r).
+Proof.
+  intros r pub req opts topic args kw W.
+  pose proof (publish_sess (r_cfg r) (lookup r) (r_now r) (r_broker r) (r_pubgen r) pub req opts topic args kw
+                           (wf_core _ (rw_broker r W))) as S.
+  destruct (publish _ _ _ _ _ _ _ _ _ _ _) as [[b pg] o] eqn:P. cbn [fst] in S.
+  split.
+  - apply wf_set_broker; [exact W|eapply publish_wf; [apply (rw_broker r W)|exact P]|].
+    rewrite S. apply (rw_sess_att r W).
+  - eapply publish_idgen; [apply (wf_core _ (rw_broker r W))|exact P].
+Qed.
+
+Lemma ids_below_set_broker : forall k r b pg, ids_below k r -> b_idgen b <= k -> ids_below k (r_set_broker r b pg).
+Proof. intros k r b pg (A & B & C) H. repeat split; auto. Qed.
+
+Lemma meta_publish_wf : forall r mp k,
+    realm_wf r -> ids_below k r ->
+    realm_wf (fst (meta_publish r mp)) /\ ids_below k (fst (meta_publish r mp)).
+Proof.
+  intros r mp k W I. unfold meta_publish.
+  pose proof (publish_realm_wf r (r_meta r) 0 (mp_opts mp) (mp_topic mp) (mp_args mp) (mp_kw mp) W) as P.
+  destruct (publish _ _ _ _ _ _ _ _ _ _ _) as [[b pg] o]. cbn [fst]. destruct P as [P1 P2].
+  split; [exact P1|]. apply ids_below_set_broker; [exact I|]. rewrite P2. apply I.
+Qed.
+
+Lemma meta_publish_all_wf : forall mps r k,
+    realm_wf r -> ids_below k r ->
+    realm_wf (fst (meta_publish_all r mps)) /\ ids_below k (fst (meta_publish_all r mps)).
+Proof.
+  induction mps as [|mp mps IH]; intros r k W I; [auto|].
+  rewrite meta_publish_all_cons. destruct (meta_publish_wf r mp k W I) as [W1 I1].
+  destruct (meta_publish r mp) as [r1 o1]. cbn [fst] in *.
+  destruct (IH r1 k W1 I1) as [W2 I2]. destruct (meta_publish_all r1 mps) as [r2 o2]. auto.
+Qed.
+
+(** ** Departure *)
+Lemma lookup_del_other : forall r sid x te,
+    x <> sid -> lookup (r_set_testaments (r_set_clients r (del_session (r_clients r) sid)) te) x = lookup r x.
+Proof.
+  intros r sid x te H. unfold lookup. cbn [r_meta r_clients r_set_clients r_set_testaments].
+  destruct (N.eqb x meta_id); [reflexivity|]. now apply find_del_other.
+Qed.
+
+Lemma client_del : forall r sid x, x <> sid -> client r x ->
+    find_session (del_session (r_clients r) sid) x <> None.
+Proof. intros r sid x H C. rewrite find_del_other by exact H. exact C. Qed.
+
+Lemma In_del_session : forall l sid s, In s (del_session l sid) -> In s l /\ s_id s <> sid.
+Proof.
+  intros l sid s H. unfold del_session in H. apply filter_In in H. destruct H as [H1 H2].
+  split; [exact H1|]. apply negb_true_iff, N.eqb_neq in H2. exact H2.
+Qed.
+
+Lemma leave_core_wf : forall r sid k,
+    realm_wf r -> ids_below k r -> client r sid ->
+    let r4 := fst (fst (leave_core r sid)) in
+    realm_wf r4 /\ ids_below k r4 /\
+    (* the leaver is in no table *)
+    find_session (r_clients r4) sid = None /\ nget (r_testaments r4) sid = None /\
+    nget (b_sess (r_broker r4)) sid = None /\
+    (forall id s, nget (b_subs (r_broker r4)) id = Some s -> ~ In sid (sub_subs s)) /\
+    nget (d_callee_regs (r_dealer r4)) sid = None /\
+    (forall id rg, nget (d_regs (r_dealer r4)) id = Some rg -> ~ In sid (reg_callees rg)) /\
+    (forall c x, cget (d_calls (r_dealer r4)) c = Some x -> fst c <> sid /\ x <> sid) /\
+    (forall c q, cget (d_bycall (r_dealer r4)) c = Some q -> fst c <> sid /\ fst q <> sid) /\
+    (forall q inv, cget (d_invs (r_dealer r4)) q = Some inv ->
+                   fst q <> sid /\ inv_callee inv <> sid /\ fst (inv_call inv) <> sid).
+Proof.
+  intros r sid k W I C r4. subst r4. unfold leave_core.
+  set (r2 := r_set_testaments (r_set_clients r (del_session (r_clients r) sid))
+                              (ndel (r_testaments (r_set_clients r (del_session (r_clients r) sid))) sid)).
+  assert (Hsid : sid <> meta_id).
+  { intros ->. apply C. apply (rw_no_meta r W). }
+  assert (Hsame : forall x, x <> sid -> lookup r2 x = lookup r x).
+  { intros x Hx. unfold r2. now apply lookup_del_other. }
+  pose proof (dealer_remove_session_wf (lookup r) (lookup r2) (lookup r2) (r_dealer r) sid (rw_dealer r W) Hsame) as D.
+  cbv zeta in D. destruct D as (D1 & D2 & D3 & D4 & D5 & D6 & D7).
+  assert (Hcr : cr_nonempty (d_callee_regs (fst (fst (dealer_remove_session (lookup r2) (r_dealer r) sid))))).
+  { rewrite drs_callee_regs. apply cr_nonempty_ndel. exact (rw_cr_nonempty r W). }
+  change (r_dealer r2) with (r_dealer r).
+  destruct (dealer_remove_session (lookup r2) (r_dealer r) sid) as [[d o1] mps]. cbn [fst] in *.
+  change (r_broker (r_set_dealer r2 d)) with (r_broker r). change (r_pubgen (r_set_dealer r2 d)) with (r_pubgen r).
+  pose proof (remove_session_sess (r_broker r) (r_pubgen r) sid) as S.
+  destruct (broker_remove_session (r_broker r) (r_pubgen r) sid) as [[b pg] o2] eqn:B. cbn [fst] in *.
+  pose proof (remove_session_wf _ _ _ _ _ _ (rw_broker r W) B) as Wb.
+  pose proof (remove_session_idgen _ _ _ _ _ _ (rw_broker r W) B) as Ib.
+  destruct (remove_session_effect _ _ _ _ _ _ (rw_broker r W) B) as (Eff & _).
+  subst r2.
+  cbn [r_set_broker r_clients r_testaments r_broker r_dealer r_set_dealer r_set_testaments r_set_clients r_meta].
+  split; [|split].
+  - constructor; cbn [r_set_broker r_clients r_testaments r_broker r_dealer r_set_dealer r_set_testaments r_set_clients r_meta].
+    + apply (rw_meta_id r W).
+    + rewrite find_del_other by congruence. apply (rw_no_meta r W).
+    + intros s Hs. apply In_del_session in Hs. apply (rw_ids r W). tauto.
+    + exact Wb.
+    + exact D1.
+    + intros x Hx. rewrite S, ngd in Hx. unfold client. cbn [r_clients].
+      destruct (N.eqb_spec x sid); [congruence|]. apply client_del; [exact n|]. now apply (rw_sess_att r W).
+    + intros x Hx. rewrite ngd in Hx. unfold client. cbn [r_clients].
+      destruct (N.eqb_spec x sid); [congruence|]. apply client_del; [exact n|]. now apply (rw_test_att r W).
+    + apply NoDup_ndel. apply (rw_test_keys r W).
+    + exact Hcr.
+  - destruct I as (I1 & I2 & I3). unfold ids_below.
+    cbn [r_broker r_dealer r_set_broker r_set_dealer r_set_testaments r_set_clients].
+    split; [lia|]. split; [lia|].
+    intros x s E.
+    assert (Hx : x <> sid).
+    { intros ->. unfold lookup in E.
+      cbn [r_meta r_clients r_set_broker r_set_dealer r_set_testaments r_set_clients] in E.
+      destruct (N.eqb_spec sid meta_id); [contradiction|]. rewrite find_del_same in E. discriminate. }
+    apply (I3 x s). rewrite <- (Hsame x Hx). exact E.
+  - split; [apply find_del_same|]. split; [apply ngd_same|]. split; [rewrite S; apply ngd_same|].
+    split.
+    { intros id s Hs Hin.
+      pose proof (wf_core _ Wb) as Wc.
+      assert (HS : holds_sig b sid id (sub_topic s) (kind s)) by (exists s; auto).
+      apply Eff in HS. destruct HS as [_ HS]. congruence. }
+    split; [exact D2|]. split; [exact D4|].
+    split.
+    { intros c x Hc. split; [eapply D5; eauto|].
+      destruct (cw_call _ (wf_calls _ _ D1) _ _ Hc) as (-> & _). eapply D5; eauto. }
+    split; [exact D6|].
+    intros q inv Hi. destruct (D7 _ _ Hi) as (Q1 & Q2). split; [exact Q1|]. split; [|exact Q2].
+    destruct (cw_inv _ (wf_calls _ _ D1) _ _ Hi) as (_ & ->). exact Q1.
+Qed.
